@@ -1,15 +1,19 @@
 ----------------------------- MODULE MC_Confine -----------------------------
 EXTENDS Confine, Json, SequencesExt
 MCPkgs == {"p1", "p2", "zz/q"}
-MCFns == {"A", "B", "Z"}
+MCFns == {"A", "B", "C", "Z"}
 MCDecl == [p \in MCPkgs |-> IF p = "p1" THEN {"A", "B"} ELSE IF p = "p2" THEN {"A"} ELSE {}]
 \* case export: configurations x programs (globals are used by the template form only)
 Cfgs == [importer : SUBSET {"p1", "p2"}, globals : {{}, {"A"}}, allowgo : BOOLEAN]
 Progs1 == {<<s>> : s \in Sites}
+\* histories: a second build after the embedder mutated ITS OWN declaration maps in place (same length):
+\* p1 loses B and gains C, the global A is replaced by another function with the same name
+Hist == {[cfg |-> c, prog |-> <<s>>, hist |-> TRUE] : c \in [importer : {{"p1"}, {"p1", "p2"}}, globals : {{"A"}}, allowgo : {FALSE}],
+                                                   s \in [kind : {"direct", "value", "closure"}, pkg : {"p1", ""}, fn : {"A", "B", "C"}]}
 Progs2 == {<<s, t>> : s \in [kind : {"direct", "go"}, pkg : {"p1", ""}, fn : {"A"}], t \in [kind : {"value", "defer", "closure"}, pkg : {"p1", "p2", "zz/q"}, fn : {"A", "B"}]}
-CaseSet == {[cfg |-> c, prog |-> pr] : c \in Cfgs, pr \in Progs1 \cup Progs2}
+CaseSet == {[cfg |-> c, prog |-> pr, hist |-> FALSE] : c \in Cfgs, pr \in Progs1 \cup Progs2} \cup Hist
 Cases == LET S == SetToSeq(CaseSet) IN
   [k \in 1..Len(S) |-> [id |-> k, importer |-> SetToSeq(S[k].cfg.importer), globals |-> SetToSeq(S[k].cfg.globals),
-                        allowgo |-> S[k].cfg.allowgo, prog |-> S[k].prog]]
+                        allowgo |-> S[k].cfg.allowgo, prog |-> S[k].prog, hist |-> S[k].hist]]
 ASSUME ndJsonSerialize("cases.ndjson", Cases)
 =============================================================================
